@@ -6,12 +6,13 @@ wt=/tmp/sv-$id
 export GOFLAGS=-mod=mod GOPROXY=off GOSUMDB=off GOTOOLCHAIN=local
 cd $wt/$mod || exit 2
 prod=$(git -C $wt diff --name-only | grep -v policies.yaml)
-go build ./... || { echo "BUILD FAILS WITH PATCH"; exit 1; }
+go build ${SEED_BUILD:-./...} || { echo "BUILD FAILS WITH PATCH"; exit 1; }
 echo "== demo with patch (expect FAIL):"; go test -vet=off -count=1 -run "$rx" $pkg 2>&1 | grep -E "^(ok|FAIL|--- FAIL)" | head -5
 echo "== existing tests of $pkg with patch (demo excluded):"; go test -vet=off -count=1 -skip "$rx" $pkg 2>&1 | grep -E "^(ok|FAIL|--- FAIL)" | head -5
-(cd $wt && git stash -q -- $prod)
+# (git stash is shared by all worktrees of a repository: never use it here)
+(cd $wt && git diff -- $prod > /tmp/sv-$id.prod.diff && git checkout -- $prod)
 echo "== demo without patch (expect ok):"; go test -vet=off -count=1 -run "$rx" $pkg 2>&1 | grep -E "^(ok|FAIL|--- FAIL)" | head -5
-(cd $wt && git stash pop -q)
+(cd $wt && git apply /tmp/sv-$id.prod.diff && rm -f /tmp/sv-$id.prod.diff)
 git -C $wt checkout -- proxy/src/services/lunar-engine/streams/validation/policies.yaml 2>/dev/null
 echo "== ./check $id --tier $tier against the patched worktree:"
 cd /verif && VERIF_REPO=$wt ./check $id --tier $tier 2>&1 | grep -E "^(VIOLATION|INCONCL|C[0-9]+ |---|KNOWN)" | cut -c1-420 | head -8
